@@ -372,7 +372,7 @@ class DidNotTerminate(BaseException):
     """the library call exceeded REAL_LIMIT_S seconds (a Python-level loop; raised from a SIGALRM handler)"""
 
 
-REAL_LIMIT_S = float(os.environ.get("VERIF_REAL_LIMIT_S", "15"))
+REAL_LIMIT_S = float(os.environ.get("VERIF_REAL_LIMIT_S", "10"))
 
 
 class time_limit:
@@ -381,7 +381,7 @@ class time_limit:
     per-check watchdog remains the last resort."""
 
     def __init__(self, seconds=None):
-        self.seconds = REAL_LIMIT_S if seconds is None else seconds
+        self.seconds = REAL_LIMIT_S if seconds is None else seconds   # module attribute read at call time
         self.active = False
 
     def __enter__(self):
